@@ -26,6 +26,11 @@ var mode = flag.String("mode", "raw", "raw|json|pb|http|replies")
 
 type bufRW struct{ bytes.Buffer }
 
+type discardLog struct{}
+
+func (discardLog) Output(calldepth int, msgBytes []byte, loggerLevel erpc.LoggerLevel) {}
+func (discardLog) Flush() error                                                       { return nil }
+
 // ---- server side ----
 
 type counter struct {
@@ -162,7 +167,11 @@ func genStream(r *rand.Rand, pf erpc.ProtoFunc, callName, pushName string, lim u
 		b := append([]byte(nil), all...)
 		switch *mode {
 		case "http":
-			big := fmt.Sprintf("POST /x HTTP/1.1\r\nContent-Length: %d\r\n\r\n", uint64(lim)+1+uint64(r.Intn(1<<22)))
+			cl := uint64(lim) + 1 + uint64(r.Intn(1<<22))
+			if r.Intn(3) == 0 { // beyond 32 bits: the low word alone would pass the limit
+				cl = (uint64(1) << 32) + uint64(r.Intn(int(lim)/2))
+			}
+			big := fmt.Sprintf("POST /x HTTP/1.1\r\nContent-Length: %d\r\n\r\n", cl)
 			if r.Intn(3) == 0 { // an endless header line (no newline), longer than the limit
 				big = "POST /x HTTP/1.1\r\nX-Long: " + string(bytes.Repeat([]byte{'a'}, int(lim)+100))
 			}
@@ -194,11 +203,13 @@ func main() {
 		return
 	}
 	r := cfg.Rng
-	Quiet()
+	// the run log (with message details) is part of the receive path: keep it ON, discard the text
+	erpc.SetLoggerOutputter(discardLog{})
+	erpc.SetLoggerLevel("TRACE")
 	RegTestFilters()
 	st := NewStats("C06", cfg)
 	st.Rule = "hostile streams per protocol (" + *mode + "): valid frame sequences, truncation at a random offset, byte flips, rewritten length fields, an announced size beyond the read limit with no payload, an endless header line (http), %FF escapes, random bytes; each fed to a fresh live server session over an in-memory conn; distinct by stream bytes; non-trivial = non-empty stream"
-	srv := erpc.NewPeer(erpc.PeerConfig{}, prePlugin{})
+	srv := erpc.NewPeer(erpc.PeerConfig{PrintDetail: true, CountTime: true}, prePlugin{})
 	callName := srv.RouteCallFunc(echo)
 	pushName := srv.RoutePushFunc(note)
 	ctl := erpc.NewPeer(erpc.PeerConfig{})
